@@ -20,11 +20,11 @@ EXPLANATION = (
 ASSUMPTIONS = [
     "copy.deepcopy creates an independent object graph (the repo patches ParseResults.__getattr__ so that "
     "deepcopy works; modelled as a plain deep copy)",
-    "named exemption: instantiate_namespace replaces namespace.content (documented in/out parameter)",
+    "named exemption (one store): instantiate_namespace replaces namespace.content (documented in/out parameter)",
 ]
 
 P1_EXEMPT = {
-    "instantiate_namespace": "documented in/out parameter: the namespace's content is replaced by its "
+    "instantiate_namespace:namespace.content": "documented in/out parameter: the namespace's content is replaced by its "
                              "instantiated content",
 }
 
